@@ -22,7 +22,7 @@ SPEC = dict(
         "initial {pep440_version} text is what bumpver itself renders for the current version (setup only)",
         "one case in eight is a legacy {..} layout (decorated {version} patterns, own and shared lines, LF/CRLF/CR)",
     ],
-    required=["update_ok", "show_ok", "set_version_in_noncanonical_spelling", "aliased_path_entry_updates", "updates_with_end_anchored_patterns", "shared_line_updates", "updates_with_a_pattern_on_several_lines",
+    required=["update_ok", "show_ok", "set_version_in_noncanonical_spelling", "updates_with_repeated_pattern_in_mixed_eol_file", "aliased_path_entry_updates", "updates_with_end_anchored_patterns", "shared_line_updates", "updates_with_a_pattern_on_several_lines",
               "legacy_updates_ok", "legacy_shared_line_updates"],
     anchors=[("parse", "iter_matches"), ("v2rewrite", "rewrite_lines"), ("v2patterns", "normalize_pattern"),
              ("config", "_parse_raw_config")],
@@ -95,7 +95,7 @@ def run_case(ctx, case):
     tdy = updates.today()
     if case.get("legacy"):
         return run_legacy(ctx, case, R, mods)
-    proj, why = projects.gen_project(R, mods, tdy, eol_choices=EOLS, filler="plain")
+    proj, why = projects.gen_project(R, mods, tdy, eol_choices=EOLS, filler="plain", repeat_in_mixed=True)
     if proj is None:
         raise harness.Skip(why)
     fl, date, exp, why = updates.plan_update(R, proj.vp, proj.cur_text, proj.cur_state, tdy)
@@ -154,6 +154,8 @@ def run_case(ctx, case):
             ctx.count("updates_with_end_anchored_patterns")
         if m.get("repeated_occurrences"):
             ctx.count("updates_with_a_pattern_on_several_lines")
+            if "mixed" in m["eols"]:
+                ctx.count("updates_with_repeated_pattern_in_mixed_eol_file")
         for prob in problems:
             cls, msg = prob[0], prob[1]
             if cls.startswith("pep440-occurrence"):
@@ -163,6 +165,10 @@ def run_case(ctx, case):
             kind = "other:" + cls
             if cls == "stale-or-wrong-occurrence" and len(prob) > 2 and projects.shares_line(proj, prob[2]):
                 kind = "shared_line_replacement_from_old_line"
+            if cls == "stale-or-wrong-occurrence" and len(prob) > 2 and proj.eol.get(prob[2].file) == "mixed" and \
+                    projects.in_chunk_after_same_pattern(proj, prob[2]):
+                # known mechanism, verified per case (see projects.in_chunk_after_same_pattern)
+                kind = "mixed_line_endings_one_match_per_chunk"
             ctx.violation(kind, f"{msg} (vp={proj.vp!r} old={proj.cur_text!r} new={a!r})", observed=desc)
         sres = harness.invoke(["show", "--no-fetch"], cwd=d)
         cur = sres.stdout_value("Current Version: ")
